@@ -646,6 +646,7 @@ func (h *H) runFrame() {
 	h.normalize()
 	h.handshakeSplit(A, B)
 	h.directRound(mixed)
+	h.runChurn()
 	names := make([]string, 0, len(rounds))
 	for _, rc := range rounds {
 		names = append(names, rc.name)
